@@ -293,7 +293,7 @@ def parse_out(output):
         if not line.startswith('"OUT '):
             continue
         txt = line[5:-1].replace('\\"', '"')
-        hist, last, in_tx, err, cur, frames = lib.parse_tla(txt)
+        hist, last, in_tx, err, cur, frames = lib.fast_parse_tla(txt)
         rows[hist] = (last, in_tx, err, cur, frames)
     return rows
 
